@@ -94,7 +94,7 @@ def p_expression_method_call(p):
     if len_p == 7:
         p[0] = CallOp(p[3], args=[p[1], *p[5]])
     elif len_p == 8:
-        p[0] = CallOp(p[3], args=[p[1], *p[5][:-1]])
+        p[0] = CallOp(p[3], args=[p[1], *p[5]])  # trailing comma: the argument list itself is complete
     else:
         p[0] = CallOp(p[3], args=[p[1]])
 
